@@ -7,7 +7,7 @@ from ..specs import ModelSpec, make_store
 from ._s import run_spec
 from .seqreplay import replay_history
 
-VALS = [None, "ok:sha256", "ok:sha256+size", "ok:sha3_256", "OK:md5", "OK:sha224", "ok:SHA-384+size",
+VALS = [None, "size", "badsize", "ok:sha256", "ok:sha256+size", "ok:sha3_256", "OK:md5", "OK:sha224", "ok:SHA-384+size",
         "badck:sha256", "badck:sha224", "ok:sha256+badsize", "badck:md5+badsize"]
 
 
@@ -59,6 +59,11 @@ class C19Spec(ModelSpec):
             md = s2.store_object(None, ctx.inputs.path(c))
             if "checksum" in kw:
                 s2.delete_if_invalid_object(md, kw["checksum"], kw["checksum_algorithm"], kw.get("expected_object_size"))
+            elif "expected_object_size" in kw:
+                # only a size to validate: the verification step needs a checksum, the caller passes the one just
+                # reported for the store algorithm
+                s2.delete_if_invalid_object(md, md.hex_digests[self.layout.algo], self.layout.algo,
+                                            kw["expected_object_size"])
             s2.tag_object(pid, md.cid)
             o2 = ("ok", (md.cid, md.obj_size, tuple(sorted(md.hex_digests.items()))))
         except Exception as e:  # noqa: BLE001
